@@ -12,14 +12,34 @@
 (* and (ii) values served from the state cache instead of the trie (C07).  *)
 (* SortedKeys = TRUE models iteration over sorted keys (the repaired       *)
 (* code); with SortedKeys = FALSE TLC exhibits the divergence.             *)
+(*                                                                         *)
+(* For (ii) the model has the prior state P and the configuration objects  *)
+(* the state cache keeps (chain/state/state_context.go GetTrieNode /       *)
+(* InsertTrieNode, common/core/statecache): a transaction works on a copy  *)
+(* handed out by the cache (or read from the trie on a miss); a FAILED     *)
+(* transaction is rolled back - its trie changes and its transaction-level *)
+(* cache are dropped (chain/state.go updateState) - but it may have edited *)
+(* its working copy before it failed (a settings update applies its        *)
+(* entries in key order and stops at the first invalid one).               *)
+(* IsolatedCopies = TRUE models the code: the working copy is a deep copy  *)
+(* (Clone by serialisation).  With IsolatedCopies = FALSE the copy shares  *)
+(* memory (a map) with the cache entry, the edits of the failed            *)
+(* transaction stay in the entry of a warm cache, the next transaction     *)
+(* that saves the object writes them to the trie, and a node with a cold   *)
+(* cache computes another root: TLC exhibits it                            *)
+(* (MC_BlockExec_sharedcopy_demo.cfg).                                     *)
 (***************************************************************************)
 EXTENDS Integers, Sequences, FiniteSets, TLC
 
 CONSTANTS Kind,        \* transaction kinds a block is made of
           MultiBad,    \* kinds whose input map has >= 2 invalid entries (subset of Kind)
+          PartFail,    \* kinds that edit their working copy of a configuration object, then fail (subset of Kind)
+          Saver,       \* kinds that read a configuration object and save it (subset of Kind)
+          ObjOf,       \* ObjOf[k]: the configuration object a kind of PartFail \cup Saver works on
           Env,         \* execution environments
           MaxLen,
-          SortedKeys
+          SortedKeys,
+          IsolatedCopies
 
 VARIABLES blk, results, hist
 vars == <<blk, results, hist>>
@@ -27,8 +47,38 @@ vars == <<blk, results, hist>>
 (* which invalid entry a map loop meets first: environment dependent unless keys are sorted *)
 FirstBad(k, e) == IF SortedKeys THEN 1 ELSE e.maporder
 (* the output of one transaction *)
-Out(k, e) == IF k \in MultiBad THEN <<k, "error", FirstBad(k, e)>> ELSE <<k, "done", 0>>
-Exec(b, e) == [i \in 1..Len(b) |-> Out(b[i], e)]
+Out(k, e) == IF k \in MultiBad THEN <<k, "error", FirstBad(k, e)>>
+             ELSE IF k \in PartFail THEN <<k, "error", 0>> ELSE <<k, "done", 0>>
+
+-----------------------------------------------------------------------------
+(* configuration objects: value in the trie, entry of the global + block cache ("absent" = not cached) *)
+Objs == {ObjOf[k] : k \in PartFail \cup Saver}
+PriorTrie == [o \in Objs |-> "prior"]
+NoCache == [o \in Objs |-> "absent"]
+Tainted(v) == v \in {"edited", "saved_edited"}
+Read(st, o) == IF st.cache[o] # "absent" THEN st.cache[o] ELSE st.trie[o]
+(* one transaction on the state (trie, cache) *)
+Step(st, k) ==
+  IF k \in PartFail
+    THEN \* rolled back: the trie is untouched and the transaction cache is dropped; a copy that shares memory with
+         \* a cache entry has changed that entry
+         IF ~IsolatedCopies /\ st.cache[ObjOf[k]] # "absent"
+           THEN [st EXCEPT !.cache[ObjOf[k]] = IF Tainted(@) THEN @ ELSE "edited"]
+           ELSE st
+  ELSE IF k \in Saver
+    THEN LET v == IF Tainted(Read(st, ObjOf[k])) THEN "saved_edited" ELSE "saved_prior"
+         IN [trie |-> [st.trie EXCEPT ![ObjOf[k]] = v], cache |-> [st.cache EXCEPT ![ObjOf[k]] = v]]
+  ELSE st
+RECURSIVE Fold(_, _, _)
+Fold(st, b, i) == IF i > Len(b) THEN st ELSE Fold(Step(st, b[i]), b, i + 1)
+(* the cache an execution starts with: empty (cold), that of a node that executed P (warm), or what an    *)
+(* earlier warm execution of the same block left behind (used) - the trie is the prior state in all cases *)
+WarmCache == [o \in Objs |-> "prior"]
+StartCache(b, e) == IF e.cache = "cold" THEN NoCache
+                    ELSE IF e.cache = "warm" THEN WarmCache
+                    ELSE Fold([trie |-> PriorTrie, cache |-> WarmCache], b, 1).cache
+Exec(b, e) == [outs |-> [i \in 1..Len(b) |-> Out(b[i], e)],
+               root |-> Fold([trie |-> PriorTrie, cache |-> StartCache(b, e)], b, 1).trie]
 
 Init == blk = <<>> /\ results = {} /\ hist = <<>>
 Extend(k) == results = {} /\ Len(blk) < MaxLen /\ blk' = Append(blk, k) /\ hist' = Append(hist, k) /\ UNCHANGED results
